@@ -19,8 +19,16 @@ ENCODED = ["dateparser.date.DateDataParser.get_date_data", "dateparser.date.get_
 ASSUMPTIONS = [
     "zones WITH transitions (tz-database names): pytz's own DstTzInfo.localize/normalize/fromutc/utcoffset code is "
     "re-imported through the loader and executed symbolically (bisect over the transition table forks per interval); "
-    "6 zones, local date-times in a window (quick 2019-2022, thorough 1971-2036) that are neither in a gap nor ambiguous; "
+    "6 zones, local date-times in a window (quick 2021, thorough 1971-2036) that are neither in a gap nor ambiguous (for "
+    "the relative parser also: no transition between the reference and the result - wall-clock vs elapsed-time "
+    "arithmetic across a transition is not specified); "
     "the oracle is a transition table derived from the stdlib zoneinfo (system tzdata), independent of pytz",
+    "homonyms: every tz-database zone (pytz.common_timezones) that calls itself, inside the window, by an abbreviation the "
+    "library's table lists with a different offset, paired with that abbreviation as TO_TIMEZONE (quick: 2 pairs)",
+    "process-local zone with transitions: tzlocal's get_localzone() is stubbed by a model of the zoneinfo object it "
+    "returns (offset look-ups by wall clock with fold=0 and by instant, from the same zoneinfo-derived table; look-ups "
+    "fork per interval); datetime.now()/fromtimestamp()/astimezone() without a zone go through it; the clock is assumed "
+    "to lie inside the table's window; replayed natively with the TZ environment variable set",
     "bounded claim: ordered pairs drawn from a pool of FIXED-OFFSET zone spellings (pytz UTC, table offsets and static "
     "abbreviations that are not tz-database names, 'local' = the stubbed process zone UTC); zones with DST transitions "
     "- in this pytz that includes names such as 'EST' - are outside (pytz searches transition tables in C): DESIGN.md",
@@ -33,6 +41,9 @@ ASSUMPTIONS = [
 ZONES = ["UTC", "+0530", "-0800", "PST", "AEST", "UTC+03:00", "+1245", "local"]
 _ABBR = {"PST": -8 * 3600, "AEST": 10 * 3600, "EST": -5 * 3600}
 AWARE = [None, True, False]
+
+
+LOCAL_ZONE = [None]      # tz-database name of the process-local zone for the running task (None: UTC)
 
 
 def off_s(tz):
@@ -160,6 +171,35 @@ def _is_dst_name(z):
     return z is not None and "/" in z
 
 
+def _zone_of(z):
+    """'local' stands for the process zone of the task"""
+    return LOCAL_ZONE[0] if (z == "local" and LOCAL_ZONE[0]) else z
+
+
+def homonyms(y0, y1):
+    """[(tz-database zone, abbreviation, listed offset)]: the zone calls itself by an abbreviation, within the window,
+    that the library's table lists with a DIFFERENT offset (e.g. Asia/Shanghai 'CST' +08:00 vs table CST -06:00)"""
+    import pytz
+    from . import zones, c11
+    listed = dict(c11.load_table()[0])
+    lo, hi = _dt.datetime(y0, 1, 1), _dt.datetime(y1, 12, 31)
+    out = []
+    for zn in pytz.common_timezones:
+        tz = pytz.timezone(zn)
+        tt, ti = getattr(tz, "_utc_transition_times", None), getattr(tz, "_transition_info", None)
+        if not tt:
+            continue
+        names = set()
+        for i, (t, inf) in enumerate(zip(tt, ti)):
+            nxt = tt[i + 1] if i + 1 < len(tt) else _dt.datetime.max
+            if nxt > lo and t < hi:
+                names.add((inf[2], int(inf[0].total_seconds())))
+        for nm, off in sorted(names):
+            if nm in listed and listed[nm] != off and zones.usable(zn, y0 - 1, y1 + 1):
+                out.append((zn, nm, listed[nm]))
+    return out
+
+
 def _to_utc(zone, o, r, y0, y1):
     """wall clock (o, r) in `zone` -> (assumption, utc pair, offset term)"""
     from . import zones
@@ -188,11 +228,30 @@ def _tz_seconds(tz):
     return off.days * 86400 + off.seconds
 
 
-def h_dst(parser, A, B, aware, y0, y1):
+def h_dst(parser, A, B, aware, y0, y1, b_off=None, local=None):
     """the four parsers with tz-database zones that have transitions: pytz's own localize/normalize/fromutc code is
-    executed symbolically; the oracle is a transition table derived from zoneinfo"""
+    executed symbolically; the oracle is a transition table derived from zoneinfo.  b_off: listed offset of the
+    abbreviation B.  local: tz-database name of the process-local zone (A == 'local' then means that zone; the zone
+    object tzlocal would return is the SymZone stub built from the same zoneinfo-derived table)"""
+    if b_off is not None:
+        _ABBR[B] = b_off
+    A_set = A
+
     def fn():
-        st = _settings(A, B, aware)
+        from . import zones
+        LOCAL_ZONE[0] = local
+        if local:
+            dates.set_local(dates.SymZone(local, zones.table(local, y0 - 1, y1 + 1)))
+            clk = dates.SDateTime._clock()
+            # stated bound: the clock lies inside the window the zone table covers
+            core.assume(mkbool(z3.And(_zi(clk.year) >= y0, _zi(clk.year) <= y1)))
+        st = _settings(A_set, B, aware)
+        return _h_dst_body(parser, _zone_of(A_set), B, aware, y0, y1, st)
+    return fn
+
+
+def _h_dst_body(parser, A, B, aware, y0, y1, st):
+    if True:
         if parser == "timestamp":
             lo = int((_dt.datetime(y0, 1, 2) - _dt.datetime(1970, 1, 1)).total_seconds())
             hi = int((_dt.datetime(y1, 12, 30) - _dt.datetime(1970, 1, 1)).total_seconds())
@@ -232,6 +291,10 @@ def h_dst(parser, A, B, aware, y0, y1):
                 from . import zones
                 uo, ur = _shift_hours(uo, ur, -_zi(nn))
                 o, r = _shift_hours(o, r, -_zi(nn))
+                # whether 'k hours ago' is wall-clock or elapsed-time arithmetic across a transition is not specified:
+                # the shifted wall clock must be an unambiguous local time carrying the reference's offset
+                pre2, _, _, off2 = _to_utc(A, o, r, y0, y1)
+                core.assume(mkbool(z3.And(pre2, off2 == src_off)))
         do = dd.date_obj
         if do is None:
             return C.outcome(False, wit, "none")
@@ -248,11 +311,13 @@ def h_dst(parser, A, B, aware, y0, y1):
                 return C.outcome(False, wit, "naive")
             if not (parser == "relative" and B is None):
                 # (relative without TO_TIMEZONE keeps the reference's own offset instance: only the wall clock is specified)
-                conds.append(eoff == _tz_seconds(do.tzinfo))
+                if isinstance(do.tzinfo, dates.SymZone):
+                    conds.append(eoff == do.tzinfo.offset_s_wall(do))
+                else:
+                    conds.append(eoff == _tz_seconds(do.tzinfo))
         elif do.tzinfo is not None:
             return C.outcome(False, wit, "aware")
         return C.outcome(z3.And(*conds), wit, "dst")
-    return fn
 
 
 def _shift_hours(o, r, hours):
@@ -308,6 +373,25 @@ def tasks(tier, seed):
                     aw = AWARE[(j + len(parser) + seed) % 3]
                     add("dst:%s:%s>%s:%s" % (parser, A, B, aw), "h_dst", {"parser": parser, "A": A, "B": B, "aware": aw, "y0": y0, "y1": y1}, 400)
             add("dst:timestamp:UTC>%s" % A, "h_dst", {"parser": "timestamp", "A": "UTC", "B": A, "aware": True, "y0": y0, "y1": y1}, 300)
+    # zones that call themselves by an abbreviation the library lists with another offset (target given as abbreviation)
+    hom = homonyms(y0, y1) if not quick else homonyms(2021, 2021)
+    if quick and hom:
+        hom = [hom[(seed * 2 + j * 5) % len(hom)] for j in range(2)]
+    for j, (zn, ab, off) in enumerate(hom):
+        for parser in (("format", "timestamp") if not quick else (("format", "timestamp")[(seed + j) % 2],)):
+            add("dst-homonym:%s:%s>%s" % (parser, zn, ab), "h_dst", {"parser": parser, "A": zn, "B": ab, "aware": AWARE[(j + seed) % 3],
+                                                                     "y0": y0, "y1": y1, "b_off": off}, 200)
+    # the process-local zone (TZ environment) has transitions: TIMEZONE='local' (also the default) must mean that zone
+    if DZ:
+        locs = [DZ[(seed + 2) % len(DZ)]] if quick else DZ
+        for j, L in enumerate(locs):
+            combos = [("absolute", "UTC", None), ("format", None, True), ("timestamp", None, True), ("relative", "UTC", False),
+                      ("absolute", None, True), ("format", "+0530", None), ("timestamp", "UTC", False)]
+            if quick:
+                combos = [combos[(seed + j) % 7], combos[(seed + j + 3) % 7], combos[(seed + j + 5) % 7]]
+            for parser, B, aw in combos:
+                add("dst-local:%s:%s>%s:%s" % (parser, L, B, aw), "h_dst", {"parser": parser, "A": "local", "B": B, "aware": aw,
+                                                                            "y0": y0, "y1": y1, "local": L}, 200)
     for j in range(1 if quick else 6):
         A, B = pairs[(seed + 5 * j) % len(pairs)]
         add("absolute-full:%s>%s" % (A, B), "h_absolute", {"A": A, "B": B, "aware": AWARE[j % 3], "full": True}, 400)
@@ -332,8 +416,9 @@ def build_spec(task, viol):
         else:
             s = "%02d hours ago" % w["k"]
             st["RELATIVE_BASE"] = [w["Y"], w["m"], w["d"], w["H"], w["M"], w["S"], 0]
-        return {"task": task["name"], "witness": w, "clock": None, "args": a, "dst": True,
-                "call": {"string": s, "languages": ["en"], "settings": st, "date_formats": fmts}}
+        return {"task": task["name"], "witness": w, "clock": C.clock_from_witness(w) if a.get("local") else None, "args": a,
+                "dst": True, "call": {"string": s, "languages": ["en"], "settings": st, "date_formats": fmts,
+                                      "local_zone": a.get("local")}}
     if fn == "h_absolute":
         if a.get("full"):
             s = "%04d-%02d-%02d %02d:%02d" % (w["Y"], w["m"], w["d"], w["H"], w["M"])
@@ -368,11 +453,16 @@ def _native_dst(spec):
     from symx import native
     from . import zones
     a, w = spec["args"], spec["witness"]
-    res = native.call_api(spec["call"])
-    desc = "parse(%r, formats=%r, settings=%r)" % (spec["call"]["string"], spec["call"].get("date_formats"), spec["call"]["settings"])
+    if a.get("b_off") is not None:
+        _ABBR[a["B"]] = a["b_off"]
+    res = native.call_api(spec["call"], spec.get("clock"))
+    desc = "parse(%r, formats=%r, settings=%r)%s" % (spec["call"]["string"], spec["call"].get("date_formats"), spec["call"]["settings"],
+                                                    (" with TZ=%s, clock(UTC)=%s" % (a["local"], spec.get("clock"))) if a.get("local") else "")
     if "exception" in res:
         return {"violates": True, "detail": "%s raised %s" % (desc, res["exception"])}
     y0, y1, A, B, p = a["y0"], a["y1"], a["A"], a["B"], a["parser"]
+    if A == "local" and a.get("local"):
+        A = a["local"]
 
     def to_utc(zone, wall):
         if _is_dst_name(zone):
